@@ -6,7 +6,7 @@ from vp.memenv import Program, Sandbox, concrete_region
 
 # root(x) -> mid(x) -> leaf(x); each inner edge may attach its own context args (which replace the inherited ones entirely)
 SRC = (
-    "_EDGE = {'mid': None, 'leaf': None}\n"
+    "_EDGE = {'mid': None, 'leaf': None, 'side': None}\n"
     "_STYLE = ['call']\n"
     "def _call(fn, name, x):\n"
     "    o = _EDGE[name]\n"
@@ -24,13 +24,17 @@ SRC = (
     "    _trace.append(('leaf', x))\n"
     "    return x + 1\n"
     "@m.memento_function(version='1')\n"
+    "def side(x):\n"
+    "    _trace.append(('side', x))\n"
+    "    return 0\n"
+    "@m.memento_function(version='1')\n"
     "def mid(x):\n"
     "    _trace.append(('mid', x))\n"
     "    return _call(leaf, 'leaf', x) * 2\n"
     "@m.memento_function(version='1')\n"
     "def root(x, **kw):\n"
     "    _trace.append(('root', x, tuple(sorted(kw))))\n"
-    "    return _call(mid, 'mid', x) + 1\n"
+    "    return _call(mid, 'mid', x) + 1 + _call(side, 'side', x)\n"
 )
 CTX = [None, {}, {"a": 1}, {"a": 2}, {"b": 1}, {"a": 1, "b": [1, {"c": None}]}]
 OVR = [None, {}, {"b": 7}, {"a": 1}]
@@ -53,18 +57,20 @@ STYLES = ["call", "call_batch", "map_over_range"]
 
 @obligation(
     "C16.flow",
-    covers=("inherited", "overridden", "override-replaces-entirely", "premem-subcall", "style:call", "style:call_batch", "style:map_over_range"),
+    covers=("inherited", "overridden", "override-replaces-entirely", "premem-subcall", "style:call", "style:call_batch", "style:map_over_range",
+            "sibling-edge-with-its-own-override"),
     split={"store": [0, 1, 2], "ri": list(range(len(CTX)))},
-    bounds="chain root -> mid -> leaf; root context from a catalogue of 6 dictionaries (None, {}, one key, other value, other key, nested); "
-           "override on each inner edge from a catalogue of 4 (none, {}, other key, same as root); every subset of {mid, leaf} memoized "
+    bounds="tree root -> {mid -> leaf, side}; root context from a catalogue of 6 dictionaries (None, {}, one key, other value, other key, nested); "
+           "override on each of the three inner edges from a catalogue of 4 (none, {}, other key, same as root); every subset of {mid, leaf} memoized "
            "beforehand under the effective context; every call of the scenario made as fn(x), through call_batch, or through "
            "map_over_range; 3 stores",
     variables="choice: root context, two edge overrides, pre-memoized subset, call style",
     budget_s={"quick": 170, "thorough": 600},
     choice_vars=4,
 )
-def flow(ri: int, mi: int, li: int, pre: int, style: int, store: int):
+def flow(ri: int, mi: int, li: int, si: int, pre: int, style: int, store: int):
     style = pick(style, 3)
+    si = pick(si, len(OVR))
     mi = pick(mi, len(OVR))
     li = pick(li, len(OVR))
     pre = pick(pre, 4)
@@ -75,6 +81,11 @@ def flow(ri: int, mi: int, li: int, pre: int, style: int, store: int):
         try:
             prog.exec(SRC)
             prog._EDGE["mid"], prog._EDGE["leaf"] = mo, lo
+            so_ = OVR[si]
+            prog._EDGE["side"] = so_  # a SIBLING edge of root with its own override: must not leak into / from the mid branch
+            eff_side = _eff(rc, so_)
+            if so_ is not None:
+                cover("sibling-edge-with-its-own-override")
             prog._STYLE[0] = STYLES[style]  # how every call of the scenario is made: fn(x), call_batch, map_over_range
             cover("style:" + STYLES[style])
             inv_ = prog._invoke
@@ -101,7 +112,7 @@ def flow(ri: int, mi: int, li: int, pre: int, style: int, store: int):
             r = inv_(root.with_context_args(dict(rc)) if rc is not None else root, 1)
             check("value", r == 5, r)
             ran = [t[0] for t in list(prog.trace)[n0:]]
-            expect_ran = ["root"] + ([] if pre & 2 else ["mid"] + ([] if pre & 1 else ["leaf"]))
+            expect_ran = ["root"] + ([] if pre & 2 else ["mid"] + ([] if pre & 1 else ["leaf"])) + ["side"]
             check("premem-subcalls-under-effective-context-are-hits", ran == expect_ran, (ran, expect_ran))
             for t in list(prog.trace):
                 if t[0] == "root":
@@ -113,7 +124,10 @@ def flow(ri: int, mi: int, li: int, pre: int, style: int, store: int):
             check("root-context-recorded", mem.invocation_metadata.fn_reference_with_args.context_args == eff_root,
                   mem.invocation_metadata.fn_reference_with_args.context_args)
             inv = mem.invocation_metadata.invocations
-            check("mid-invocation-context", len(inv) == 1 and inv[0].context_args == eff_mid, [i.context_args for i in inv])
+            check("mid-invocation-context", len(inv) == 2 and inv[0].context_args == eff_mid, [i.context_args for i in inv])
+            check("sibling-invocation-context", len(inv) == 2 and inv[1].context_args == eff_side, [i.context_args for i in inv])
+            sm_ = (prog.side.with_context_args(dict(eff_side)) if eff_side else prog.side).memento(1)
+            check("sibling-stored-under-its-effective-context", sm_ is not None, None)
             mm = (mid.with_context_args(dict(eff_mid)) if eff_mid else mid).memento(1)
             check("mid-stored-under-effective-context", mm is not None, None)
             inv2 = mm.invocation_metadata.invocations
